@@ -468,6 +468,48 @@ def r17h(ck, prog):
     ck.floor("R17h", n, 1, "stores through the score pointer")
 
 
+def r17j(ck, prog):
+    """what counts as a residue of a row does not depend on its case: every test compare_pair (or a private helper of it) makes
+    on a character of a row, evaluated for all byte values, gives the same answer for a letter and its other-case twin, holds
+    for every letter and fails for '-' and '.' - a lower-case residue taken for a gap shifts the column numbering of the
+    whole row and the score compares the wrong pairs"""
+    from ..bytedom import Sym, ev, char_origin
+    P = prog.fn("compare_pair")
+    fns = [P]
+    for c in P.body.calls():
+        H = prog.fn(prog.resolve(c.callee, P.file), required=False) if c.callee else None
+        if H is not None and H.body is not None and H.static and H.file == P.file and H not in fns:
+            fns.append(H)
+    n = 0
+    for F in fns:
+        cparams = {p_["did"] for p_ in F.params if (p_["ty"] or "").replace("const ", "").strip() in ("char *", "char*")}
+        for cnd in [x.child("cond") for x in F.body.walk() if x.k in ("IfStmt", "ConditionalOperator", "WhileStmt") and x.child("cond") is not None]:
+            org = [o for o in char_origin(cnd) if any(r.k == "DeclRefExpr" and r.d.get("did") in cparams for r in o.walk())]
+            if len({o.text() for o in org}) != 1:
+                continue
+            sym = Sym(text=org[0].text())
+            vals = {}
+            for b in list(range(65, 91)) + list(range(97, 123)) + [45, 46]:
+                vals[b] = ev(cnd, sym, b)
+            if any(v is None for v in vals.values()):
+                continue
+            n += 1
+            where = site(prog, cnd, "row character test")
+            split = [chr(b) for b in range(65, 91) if bool(vals[b]) != bool(vals[b + 32])]
+            ck.inst("R17j", where, "%s tests %s: %s" % (F.name, cnd.text()[:40], "case-blind" if not split else "splits %s" % "".join(split[:6])), prog.config)
+            if split:
+                ck.violation("R17j", "R17j/%s/case" % F.name, where,
+                             "%s tests a row character with %s, which tells %s from %s: a residue written in lower case is taken for a gap, the "
+                             "residue numbering of that row shifts and the score counts pairs of different residues" % (
+                                 F.name, cnd.text()[:50], split[0], split[0].lower()), prog.config)
+                continue
+            letters = {bool(vals[b]) for b in range(65, 91)}
+            if len(letters) == 1 and bool(vals[45]) == letters.pop():
+                ck.violation("R17j", "R17j/%s/gap" % F.name, where,
+                             "%s tests a row character with %s, which does not tell a letter from the gap symbol '-'" % (F.name, cnd.text()[:50]), prog.config)
+    ck.floor("R17j", n, 2, "tests of a row character in compare_pair")
+
+
 def r17i(ck, prog):
     """rows are matched by position after both alignments have been brought into one order: kalign_sort_msa sorts on every
     success path, or what lets it skip the sort is a scan of all numseq-1 adjacent pairs of rows"""
@@ -547,6 +589,7 @@ def r17g(ck, prog):
 def run(ck, progs):
     describe(ck)
     ck.rule("R17h", "no local variable or conversion narrower than the counter fields of struct cmp_stats lies between a counter and *score")
+    ck.rule("R17j", "every test compare_pair makes on a row character gives the same answer for a letter and its case twin, and tells letters from the gap symbol")
     ck.rule("R17i", "kalign_sort_msa sorts on every success path, or skips the sort only after a scan of all numseq-1 adjacent pairs of rows")
     ck.rule("R17g", "finalise_alignment(X) in kalign_msa_compare is guarded by tests of X only")
     ck.rule("R17e", "each row-walking loop of compare_pair is bounded by the length of the alignment its rows belong to (pairing taken from the call site)")
@@ -563,6 +606,7 @@ def run(ck, progs):
         ck.attempt(r17g, ck, prog)
         ck.attempt(r17h, ck, prog)
         ck.attempt(r17i, ck, prog)
+        ck.attempt(r17j, ck, prog)
     return ("CFG dominance of both sort calls over the pairing loop, argument pairing and loop ranges of the compare_pair "
             "call, field read set of the row-matching comparator; classification of compare_pair's counters by the row "
             "parameters their loops scan, and reaching definitions of numerator and denominator of the stored score.")
